@@ -277,6 +277,10 @@ class Analyzer:
                 base = st.ptr[r[0]]
                 via = (base[0] - r[2] if base[0] > NEG else NEG, POS)
                 iv = via if iv is None else (max(iv[0], via[0]), iv[1])
+            if r is not None and r[0].startswith('@cur:') and r[2] < POS and r[0][5:] in st.buf:
+                base = st.buf[r[0][5:]]
+                via = (base[0] - r[2] if base[0] > NEG else NEG, POS)
+                iv = via if iv is None else (max(iv[0], via[0]), iv[1])
             if iv is None:
                 return None
         else:
@@ -403,6 +407,10 @@ class Analyzer:
             r = self.rel_of(pn, st)
             if r is not None and r[0] != name:
                 st.rel[name] = r
+        if pn is not None and pn[0] == 'cur':
+            # p = buffer_at_offset(B) + c: p stays c bytes from B's cursor until B->offset is stored to, so what is learned
+            # about B later (can_read) also holds for p
+            st.rel[name] = ('@cur:' + pn[1], pn[2], pn[2])
         if pn is None:
             return
         av = self.avail_of(pn, st)
@@ -419,6 +427,15 @@ class Analyzer:
         b = self.buf_field(lhs, 'offset')
         if b:
             self.kill_term(st, 'cur', b)
+            # pointers held relative to B's cursor: the cursor moves, they do not
+            cdelta = const_val(a['r']) if op in ('+=', '-=') else None
+            for k in [k for k, v in st.rel.items() if v[0] == '@cur:' + b]:
+                if cdelta is None:
+                    del st.rel[k]
+                else:
+                    d = cdelta if op == '+=' else -cdelta
+                    v = st.rel[k]
+                    st.rel[k] = (v[0], v[1] - d if v[1] > NEG else NEG, v[2] - d if v[2] < POS else POS)
             if op == '=':
                 r = strip_casts(a['r'])
                 c = const_val(a['r'])
@@ -1089,15 +1106,23 @@ def infer_requirements(u, fam, kmax=8):
             # raise all together until clean (or kmax)
             k = max(cur.values()) if cur else 0
             assume = dict(cur)
-            while bad(assume) and k < kmax:
+            best = (len(bad(assume)), dict(assume))
+            while best[0] and k < kmax:
                 k += 1
                 assume = {n: max(v, k) for n, v in assume.items()}
+                nb = len(bad(assume))
+                if nb < best[0]:
+                    best = (nb, dict(assume))
+            # when no entry assumption makes every read provable, keep the least one that leaves the fewest unjustified
+            # reads: they are then reported where they are instead of as an impossible demand on every caller
+            assume = best[1]
+            residual = best[0]
             # lower each individually
             for (i, name, _kk) in cps:
                 while assume[name] > cur[name]:
                     trial = dict(assume)
                     trial[name] = assume[name] - 1
-                    if bad(trial):
+                    if len(bad(trial)) > residual:
                         break
                     assume = trial
             new = {i: assume[name] for (i, name, kd) in cps if assume[name] > 0 or kd == 'ptr'}
